@@ -506,6 +506,7 @@ func (x *Exec) contractCall(fr *Frame, st *State, callee *ssa.Function, fc *Func
 		_ = o
 		x.vc.assume(Implies(st.Reach, Not(Eq(args[0].Loc.Root, nilRef))))
 	}
+	env.goal = true
 	for k, rq := range fc.Requires {
 		g := env.evalBool(rq.Expr)
 		o := x.vc.oblige("pre@"+name, Implies(st.Reach, g), x.posOf(fr.fn, pos), fmt.Sprintf("precondition %d of %s: %s", k+1, name, rq.Src))
@@ -534,10 +535,60 @@ func (x *Exec) contractCall(fr *Frame, st *State, callee *ssa.Function, fc *Func
 		res = x.havocValue(st, resT, "r."+name)
 	}
 	post := &CEnv{x: x, fr: fr, st: st, old: &pre, pkg: pkg, vars: env.vars, mode: x.m(), hasResult: true, result: res, sig: callee.Signature}
+	if fc.Where != nil {
+		post.whereExpr = fc.Where.Expr
+	}
+	// the callee's logical variables are universally quantified in what the caller learns
+	var gvars [][2]string
+	var gguards []*Term
+	if len(fc.GhostVars) > 0 {
+		post.bound = map[string]Value{}
+		x.vc.nfresh++
+		for _, g := range fc.GhostVars {
+			name := fmt.Sprintf("%s!g%d", g.Name, x.vc.nfresh)
+			sort := x.m().specSort(g.Type)
+			s := Sym(name, sort)
+			t, _ := basicByName(g.Type)
+			if t != nil {
+				if it, ok := intTyOf(t); ok {
+					gguards = append(gguards, x.m().inRange(s, it))
+				}
+			}
+			post.bound[g.Name] = Value{K: KScalar, T: t, X: s}
+			gvars = append(gvars, [2]string{name, sort})
+		}
+	}
 	for _, en := range fc.Ensures {
+		if len(gvars) > 0 && (ceMentions(en.Expr, fc.GhostVars) || ceMentions(en.Expr, []Param{{Name: "where"}})) {
+			x.vc.sideStack = append(x.vc.sideStack, nil)
+			body := post.evalBool(en.Expr)
+			side := x.vc.sideStack[len(x.vc.sideStack)-1]
+			x.vc.sideStack = x.vc.sideStack[:len(x.vc.sideStack)-1]
+			x.vc.assume(Implies(st.Reach, Forall(gvars, Implies(And(gguards...), And(append(side, body)...)))))
+			continue
+		}
 		x.vc.assume(Implies(st.Reach, post.evalBool(en.Expr)))
 	}
 	return res
+}
+
+func ceMentions(e *CE, ps []Param) bool {
+	if e == nil {
+		return false
+	}
+	if e.Kind == "id" {
+		for _, p := range ps {
+			if p.Name == e.Name {
+				return true
+			}
+		}
+	}
+	for _, a := range e.Args {
+		if ceMentions(a, ps) {
+			return true
+		}
+	}
+	return false
 }
 
 // havocModifies havocs the storage denoted by a modifies-expression.
